@@ -54,7 +54,13 @@ func conditioningMethodReturn(
 	for _, defineArgT := range defineArgTs {
 		if defineArgT.HasDefault() {
 			variants := methodT.GetVariants()
-			return &variants[len(removeBlockTypeArgs(evaluatedArgs))]
+
+			argCount := len(removeBlockTypeArgs(evaluatedArgs))
+			if argCount >= len(variants) {
+				return methodT
+			}
+
+			return &variants[argCount]
 		}
 
 		if defineArgT.IsUnionType() {
